@@ -299,6 +299,22 @@ pub fn run_lit(cfg: Cfg, out: &mut Out) {
             emit(&mut core, out, format!("(i & {f})"), "lit.int");
         }
     }
+    // corrupted integer literals: a foreign character at every position of a valid literal
+    for base in ["0", "012", "0777", "0x1f", "10", "-12", "9223372036854775807", "0x7fffffffffffffff", "01777777777777777777777"] {
+        let cs: Vec<char> = base.chars().collect();
+        for pos in 0..=cs.len() {
+            for ins in ['8', '9', 'a', 'f', 'x', 'X', '+', '-', '_', '.', ' ', 'g'] {
+                let mut v = cs.clone();
+                v.insert(pos, ins);
+                let f: String = v.into_iter().collect();
+                emit(&mut core, out, format!("i == {f}"), "lit.int.corrupt");
+                emit(&mut core, out, format!("i in {{{f}}}"), "lit.int.corrupt");
+                emit(&mut core, out, format!("i in {{0..{f}}}"), "lit.int.corrupt");
+                emit(&mut core, out, format!("i in {{{f} 3}}"), "lit.int.corrupt");
+                emit(&mut core, out, format!("ai[{f}] == 1"), "lit.int.corrupt");
+            }
+        }
+    }
     // byte strings: all 256 byte values in each escape form
     for b in 0..=255u8 {
         for form in [format!("\\x{b:02x}"), format!("\\x{b:02X}"), format!("\\{b:03o}"), format!("\\x{b:x}"), format!("\\{b:o}"), format!("\\x+{:x}", b & 15), format!("\\x-{:x}", b & 15), format!("\\{b}")] {
